@@ -700,6 +700,24 @@ def list_identity_rule(F, R):
                "line %s) without comparing what follows the first node: lists that share a first chunk but differ in length or "
                "tail compare equal" % (fn.short(), cs[0]["line"]), fn.loc(cs[0]["line"]), sample=True)
     R.floor("C11.q", "users of the first-node storage comparison", n, 1)
+    # the same for the identity that keys the visited set of the equality handler: identity_tuple() is (element storage, index)
+    # of the first node as well
+    m = 0
+    for name, fn in sorted(F.fns.items()):
+        if not re.search(r"^steel::rvals::cycles::\{impl RecursiveEqualityHandler(<[^{}]*>)?\}::", name):
+            continue
+        ids = [b for _, b in fn.calls() if re.search(r"GenericList<[^}]*\}::identity_tuple$", b["callee"])]
+        if not ids:
+            continue
+        m += 1
+        nx = [b for _, b in fn.calls() if re.search(r"GenericList<[^}]*\}::next_ptr_as_usize$", b["callee"])]
+        R.inst("C11.q", "%s / identity_tuple together with the next pointers" % fn.short(), len(nx) >= len(ids),
+               "%s keys `this pair of lists was compared already` by identity_tuple() alone (line %s): two different lists made by "
+               "take / append share it, so a pair that was never compared is skipped — (equal? (list x2 c) (list y2 d)) answered "
+               "#true for x2 = (append c '(1 2 3)), y2 = (append d '(9 9 9)) with equal c and d" % (fn.short(), ids[0]["line"]),
+               fn.loc(ids[0]["line"]), sample=True)
+    R.inst("C11.q", "the equality handler's list identities examined", m >= 1,
+           "RecursiveEqualityHandler no longer uses identity_tuple (anchor changed: the rule has nothing to decide)", nontrivial=False)
 
 
 def cross_kind_hash_rule(F, R):
